@@ -1,4 +1,5 @@
 """Property id -> check function."""
+import p_channel
 import p_halflock
 
 
@@ -15,4 +16,13 @@ def c18(chk, tier):
     p_halflock.run_halflock(chk, tier, want_liveness=True)
 
 
-CHECKS = {"C01": c01, "C18": c18}
+def c06(chk, tier):
+    chk.extra["rule"] = ("real code: every schedule (DFS, preemption-bounded where stated, nested sends, forced "
+                         "spurious weak-CAS failures) of small Channel<T> scenarios; a case is one schedule, "
+                         "distinct = distinct abstract event traces; oracle = ChannelAbs via TLC trace validation "
+                         "(linearisation points chosen by TLC); model: TLC exhaustive on Channel.tla over Mem.tla "
+                         "with the orderings/SLOTS/BITS extracted from the running code")
+    p_channel.run_channel(chk, tier)  # invariants and event classes selected by chk.pid
+
+
+CHECKS = {"C01": c01, "C18": c18, "C06": c06, "C07": c06, "C08": c06}
